@@ -1,8 +1,8 @@
 (* C17 — Density-estimation caching and size-dependent code paths are transparent.
    Property theorems only + non-vacuity.  Model: Model/DECache.v (matrix-entry cache old_R) on top of Model/Gram.v. *)
 From Coq Require Import ZArith List QArith Qcanon Bool Lia.
-From SG Require Import Base.QcUtil Model.Gram Model.DECache Model.DEReuse
-  Proofs.GramHat Proofs.GramEntries Proofs.GramPD Proofs.GramNorm Proofs.DECacheP Proofs.DEPaths Proofs.DEReuseP Proofs.DEInterpP Proofs.DEUniform Proofs.DEUniformInterp Proofs.DEPointList.
+From SG Require Import Base.QcUtil Model.Gram Model.GramSolve Model.DECache Model.DEReuse
+  Proofs.GramHat Proofs.GramEntries Proofs.GramPD Proofs.GramNorm Proofs.DECacheP Proofs.DEPaths Proofs.DEReuseP Proofs.DEInterpP Proofs.DEUniform Proofs.DEUniformInterp Proofs.DEPointList Proofs.DESolveP.
 Import ListNotations.
 Open Scope Qc_scope.
 
@@ -237,3 +237,56 @@ Example C17_list_expressions_nonvacuous :
   old_point_list_py [[q 0 1; q 1 4; q 1 2; q 1 1]; [q 0 1; q 1 2; q 1 1]] = [[q 1 4; q 1 2]; [q 1 2; q 1 2]] /\
   domain_data_py [[3; 0; 2; 0]; [2; 5; 0]; [0; 2; 2; 4]]%nat = [0; 2]%nat.
 Proof. split; vm_compute; reflexivity. Qed.
+
+(* ---- phase 3 -------------------------------------------------------------------------------------------------------- *)
+
+(* SURPLUS TRANSPARENCY follows from matrix and right-hand-side transparency (with C16's positive definiteness in every dimension:
+   the system has exactly one solution).  One component grid evaluated on an object with ANY consistent matrix cache c and ANY
+   consistent re-use state st: the matrix and the right-hand side equal those of the run without re-use, so whatever solves the
+   system of the run with re-use IS the solution of the run without, and the normalised surpluses agree *)
+Theorem C17_surpluses_transparent : forall data signs perms thr lam c st key stripes x_on x_off,
+  consistent c -> perms_complete data perms -> Inv data signs perms st ->
+  Forall good_stripe stripes -> Forall (fun x => length x = length stripes) data -> 0 <= lam ->
+  let G_on := fst (sym_matrix_cached c lam (grid_hats stripes)) in
+  let b_on := fst (calc_B thr data signs perms st key stripes) in
+  let G_off := R_matrix_nonuniform (grid_hats stripes) lam in
+  let b_off := rhs_plain thr data signs stripes in
+  length x_on = length (grid_hats stripes) -> length x_off = length (grid_hats stripes) ->
+  matvec G_on x_on = b_on -> matvec G_off x_off = b_off ->
+  G_on = G_off /\ b_on = b_off /\ x_on = x_off /\
+  forall labelled, normalise_weighted labelled (tensor_weights stripes) x_on = normalise_weighted labelled (tensor_weights stripes) x_off.
+Proof. exact surpluses_transparent. Qed.
+Print Assumptions C17_surpluses_transparent.
+
+(* ... and such surpluses exist: the system of the run with re-use has exactly one solution, the one the exact pipeline of C16
+   (surpluses_nonuniform: model matrix, model right-hand side, elimination) computes from the data *)
+Theorem C17_surpluses_with_reuse_exist : forall data signs perms thr lam c st key stripes labelled,
+  consistent c -> perms_complete data perms -> Inv data signs perms st ->
+  Forall good_stripe stripes -> Forall (fun x => length x = length stripes) data -> 0 <= lam ->
+  exists raw fin integ,
+    surpluses_nonuniform stripes lam false data signs labelled = Some (raw, fin, integ) /\
+    matvec (fst (sym_matrix_cached c lam (grid_hats stripes))) raw = fst (calc_B thr data signs perms st key stripes) /\
+    forall y, length y = length (grid_hats stripes) ->
+              matvec (fst (sym_matrix_cached c lam (grid_hats stripes))) y = fst (calc_B thr data signs perms st key stripes) -> y = raw.
+Proof. exact surpluses_with_reuse_exist. Qed.
+Print Assumptions C17_surpluses_with_reuse_exist.
+
+(* non-vacuity: the hypotheses hold for the empty cache, the initial state, a concrete grid and data set *)
+Example C17_surpluses_nonvacuous :
+  let data := [[q 1 4]; [q 1 2]; [q 3 4]; [q 1 10]] in
+  let g := [[q 0 1; q 1 4; q 1 2; q 3 4; q 1 1]] in
+  exists raw fin integ, surpluses_nonuniform g (q 1 8) false data [] false = Some (raw, fin, integ) /\
+    matvec (fst (sym_matrix_cached [] (q 1 8) (grid_hats g))) raw = fst (calc_B 2 data [] [[3; 0; 1; 2]%nat] (bstate0 1) [1%Z] g).
+Proof.
+  cbv zeta.
+  assert (Hc : perms_complete [[q 1 4]; [q 1 2]; [q 3 4]; [q 1 10]] [[3; 0; 1; 2]%nat]).
+  { intros pm [E|[]] k Hk. subst pm. cbn [length] in Hk.
+    destruct k as [|[|[|[|k]]]]; cbn; try tauto. exfalso. do 4 apply Nat.succ_lt_mono in Hk. inversion Hk. }
+  assert (Hg : Forall good_stripe [[q 0 1; q 1 4; q 1 2; q 3 4; q 1 1]]).
+  { repeat constructor; try (unfold Qclt; vm_compute; reflexivity); try (apply Qc_is_canon; reflexivity). }
+  assert (Hl : 0 <= q 1 8) by (unfold Qcle; vm_compute; discriminate).
+  destruct (C17_surpluses_with_reuse_exist [[q 1 4]; [q 1 2]; [q 3 4]; [q 1 10]] [] [[3; 0; 1; 2]%nat] 2%nat (q 1 8) [] (bstate0 1) [1%Z]
+              [[q 0 1; q 1 4; q 1 2; q 3 4; q 1 1]] false consistent_nil Hc (Inv_initial [[q 1 4]; [q 1 2]; [q 3 4]; [q 1 10]] [] [[3; 0; 1; 2]%nat] 1%nat eq_refl) Hg
+              ltac:(repeat constructor) Hl) as [raw [fin [integ [E [S _]]]]].
+  exists raw, fin, integ. split; [exact E | exact S].
+Qed.
